@@ -87,12 +87,12 @@ func c17Tables(c *Ctx, p *Prog, m *Model) {
 				switch x := in.(type) {
 				case *ssa.Lookup:
 					if gg, ok := globalLoad(x.X); ok && gg == g {
-						_, n := isToLower(x.Index)
+						n := lowerCased(x.Index, 0)
 						accs = append(accs, acc{fn, instrPos(x), n, "read"})
 					}
 				case *ssa.MapUpdate:
 					if gg, ok := globalLoad(x.Map); ok && gg == g {
-						_, n := isToLower(x.Key)
+						n := lowerCased(x.Key, 0)
 						accs = append(accs, acc{fn, instrPos(x), n, "store"})
 					}
 				}
@@ -551,6 +551,23 @@ func c17Register(c *Ctx, p *Prog, m *Model) {
 				found = &all[i]
 			}
 		}
+		// several stores into the same table (a feature that registers further entries, e.g. parse-only aliases): the
+		// one judged here is the entry of the level itself - keyed by the title (parse table) or by the level value;
+		// the others are constrained by R17.1 (same normalisation) and R17.3 (refusal before any store)
+		for i := range all {
+			if nm(all[i].G) != nd.table || all[i].Key == nil {
+				continue
+			}
+			k := strip(all[i].Key)
+			if src, ok := isToLower(k); ok {
+				k = strip(src)
+			}
+			if prm, ok := k.(*ssa.Parameter); ok {
+				if (nd.table == "stringToLevel") == (prm.Type().String() == "string") {
+					found = &all[i]
+				}
+			}
+		}
 		if found == nil {
 			r.Bad("R17.4", key, p.FuncPos(rl), "a successful registration does not record the level in %s", nd.table)
 			continue
@@ -995,4 +1012,88 @@ func isRepeatOf(v ssa.Value, n *ssa.Parameter) bool {
 		return false
 	}
 	return call.Common().Args[1] == ssa.Value(n)
+}
+
+// lowerCased: v is a strings.ToLower result on every path: directly, through joins, or as an element of a local
+// slice every element of which was lower-cased before it was appended.
+func lowerCased(v ssa.Value, depth int) bool {
+	if depth > 6 {
+		return false
+	}
+	if _, ok := isToLower(v); ok {
+		return true
+	}
+	v = strip(v)
+	switch x := v.(type) {
+	case *ssa.Phi:
+		for _, e := range x.Edges {
+			if e == ssa.Value(x) {
+				continue
+			}
+			if !lowerCased(e, depth+1) {
+				return false
+			}
+		}
+		return len(x.Edges) > 0
+	case *ssa.UnOp:
+		if x.Op != token.MUL {
+			return false
+		}
+		ia, ok := x.X.(*ssa.IndexAddr)
+		if !ok {
+			return false
+		}
+		return sliceAllLower(ia.X, depth+1, map[ssa.Value]bool{})
+	}
+	return false
+}
+
+// sliceAllLower: every element the local slice s can hold was lower-cased (s is nil, or append(s', elems...) with
+// s' of the same kind and every element lower-cased).
+func sliceAllLower(s ssa.Value, depth int, seen map[ssa.Value]bool) bool {
+	s = strip(s)
+	if seen[s] {
+		return true
+	}
+	seen[s] = true
+	if depth > 8 {
+		return false
+	}
+	switch x := s.(type) {
+	case *ssa.Const:
+		return x.IsNil()
+	case *ssa.Phi:
+		for _, e := range x.Edges {
+			if !sliceAllLower(e, depth+1, seen) {
+				return false
+			}
+		}
+		return true
+	case *ssa.Call:
+		if !isBuiltinCall(x, "append") {
+			return false
+		}
+		if !sliceAllLower(x.Common().Args[0], depth+1, seen) {
+			return false
+		}
+		sl, ok := x.Common().Args[1].(*ssa.Slice)
+		if !ok {
+			return false
+		}
+		al, ok := sl.X.(*ssa.Alloc)
+		if !ok {
+			return false
+		}
+		for _, ref := range *al.Referrers() {
+			if ia, ok := ref.(*ssa.IndexAddr); ok {
+				for _, r2 := range *ia.Referrers() {
+					if st, ok := r2.(*ssa.Store); ok && !lowerCased(st.Val, depth+1) {
+						return false
+					}
+				}
+			}
+		}
+		return true
+	}
+	return false
 }
